@@ -699,7 +699,9 @@ pub fn record(part: &mut crate::util::Part, label: &str, st: &Stats) {
 /// otherwise the configuration did not exercise what it claims and the run is a machinery
 /// failure (exit 2), never a verdict. Skipped when the exploration stopped early on a violation.
 pub fn require_facts(part: &mut crate::util::Part, label: &str, st: &Stats, required: &[&str]) {
-    if !st.violations.is_empty() {
+    if !st.violations.is_empty() || !st.exhaustive {
+        // an exploration cut short by a cap or a violation may legitimately miss facts; the cap
+        // itself is reported in `caps_hit`
         return;
     }
     for r in required {
